@@ -277,6 +277,32 @@ func runC16(ctx *Ctx, idx int) {
 				if fresh.Cnt != 0 || len(fresh.Bitmaps) != 0 || len(fresh.Offsets) != 0 || len(fresh.Elts) != 0 {
 					viol("rejected-init-built-something", map[string]interface{}{"kind": kind, "target": "fresh array.Array", "Cnt": fresh.Cnt, "bitmap_words": len(fresh.Bitmaps), "elts_bytes": len(fresh.Elts)})
 				}
+				if fresh.EltEncoder != nil {
+					viol("rejected-init-built-something", map[string]interface{}{"kind": kind, "target": "fresh array.Array", "what": "the rejected call left an element encoder behind"})
+				}
+				// the same object must still be usable: a valid Init with another
+				// element type, then every element read back
+				other := make([]defU64, n)
+				for i := range other {
+					other[i] = defU64(vals[i]) + 7
+				}
+				var e2 error
+				pv2, stack2 := try(func() {
+					e2 = fresh.Init(ixs, other)
+					if e2 != nil {
+						return
+					}
+					for j := 0; j < n && j < 200; j++ {
+						got, ok := fresh.Get(ixs[j])
+						if !ok || got != interface{}(other[j]) {
+							viol("init-after-rejected-init-wrong", map[string]interface{}{"kind": kind, "index": ixs[j], "got": fmt.Sprintf("%T(%v)", got, got), "want": fmt.Sprintf("%T(%v)", other[j], other[j])})
+							return
+						}
+					}
+				})
+				if pv2 != nil || e2 != nil {
+					viol("init-after-rejected-init-failed", map[string]interface{}{"kind": kind, "panic": fmt.Sprint(pv2), "error": fmt.Sprint(e2), "stack": stack2})
+				}
 				ctx.Count("rejected_init_leaves_fresh_value_empty", 1)
 			} else {
 				viol("invalid-init-not-rejected", map[string]interface{}{"kind": kind, "panic": fmt.Sprint(pv), "error": fmt.Sprint(err)})
